@@ -190,6 +190,16 @@ def run(tier):
                 d[0][1] = absval.cps(rng.choice(['3.0.0', '2.5', '4.0', '3']))
             if k % 11 == 5 and d[0][1] == absval.cps('2.0'):
                 d[0][1] = absval.cps(rng.choice(['2.0.0', '1.0', '2']))
+        # the version decides how a Bin is spelt: every other document that holds one gets a version strictly
+        # between the two official ones (read and written by the rules of the nearest, 3.0)
+        def has_bin(x):
+            return isinstance(x, (list, tuple)) and ((len(x) > 0 and x[0] == 9 and len(x) == 2) or any(has_bin(y) for y in x))
+        nb = 0
+        for d in docs2:
+            if d[0][1] == absval.cps('3.0') and has_bin(d[0][2:]):
+                nb += 1
+                if nb % 2:
+                    d[0][1] = absval.cps(['2.5', '2.0.1', '2.9'][nb // 2 % 3])
         extra = [{f: rng.randint(1, c03.RANGES[f]) for f in c03.FIELDS} for _ in range(2)]
         nozone = {f: 1 for f in c03.FIELDS}
         nozone['dt'] = 5
